@@ -6,7 +6,7 @@
    discipline, re-proved on every run against the table the translator regenerates from the
    Go source (build/C15/C15_check.v: C15_discipline, C15_race_free, C15_single_read,
    C15_lock_order — see translator/lockset/C15_check.v). *)
-From SG Require Import Base.Prelude Model.Lockset Model.RuleSwitch Model.LocksetPolicy
+From SG Require Import Base.Prelude Model.Lockset Model.RuleSwitch Model.LocksetRegions Model.LocksetPolicy
   Proofs.LocksetProofs Proofs.RuleSwitchProofs.
 Local Open Scope string_scope.
 
@@ -42,6 +42,26 @@ Theorem C15_race_free_of_table : forall A wl,
   discipline_ok A wl = true ->
   forall ps c x, Forall (prog_covered (filter (live wl) A)) ps -> reachable ps c -> ~ race_on x c.
 Proof. exact race_free_of_discipline. Qed.
+
+(* ---- unlock discipline: a failed operation cannot leave a lock locked ----------------- *)
+
+(* One function activation projected to Lock / plain Unlock / defer Unlock / calls.  If at every
+   call that may panic, and at the end of the body, every lock the activation holds is covered
+   by a deferred unlock registered before, then whichever call panics (or none) the activation
+   leaves NO lock behind: a goroutine that recovers the panic holds what it held before. *)
+Theorem C15_no_lock_leak : forall b p, fcheck b [] [] = true -> fexec b [] [] p = [].
+Proof. exact no_lock_leak. Qed.
+
+(* The check is exact: where it fails some run (a panic at some call, or the normal run) does
+   leave a lock behind. *)
+Theorem C15_lock_leak_exact : forall b, fcheck b [] [] = false -> exists p, fexec b [] [] p <> [].
+Proof. intros b H. exact (fcheck_complete b [] [] H). Qed.
+
+(* The executable check run on the regenerated table (build/C15/C15_check.v:
+   C15_unlock_discipline) implies the static check for a body whose facts are the table. *)
+Theorem C15_region_checker_sound : forall f b,
+  regions_ok (facts_of_body f b) strict_policy = true -> fcheck b [] [] = true.
+Proof. exact regions_ok_fcheck. Qed.
 
 (* ---- atomic switch ------------------------------------------------------------------ *)
 
@@ -119,6 +139,26 @@ Proof.
   - exists 0%nat, 1%nat. do 4 eexists. repeat split; try (cbn; reflexivity); auto.
 Qed.
 
+(* the two shapes of a rule loader.  Lock; defer Unlock; build (calls the user's generator);
+   swap: passes, and leaves nothing behind whichever call panics.  Lock; build; swap; Unlock
+   (plain): fails the check, the panic of the build leaves the lock held, and in the lock
+   semantics of Model/Lockset.v nobody can take the lock afterwards although the holder's
+   program is over (deadlock of every reader). *)
+Definition ok_loader : list fstep := [FAcq "m.mu"; FDefer "m.mu"; FCall true; FCall false].
+Definition leaky_loader : list fstep := [FAcq "m.mu"; FCall true; FCall false; FRel "m.mu"].
+
+Example C15_unlock_nonvacuous :
+  fcheck ok_loader [] [] = true /\ fexec ok_loader [] [] (Some 0%nat) = [] /\
+  regions_ok (facts_of_body "m.load" ok_loader) strict_policy = true /\
+  fcheck leaky_loader [] [] = false /\ fexec leaky_loader [] [] (Some 0%nat) = ["m.mu"] /\
+  fexec leaky_loader [] [] None = [] /\
+  regions_ok (facts_of_body "m.load" leaky_loader) strict_policy = false /\
+  (* the loader's goroutine (thread 0) has nothing left to run and still holds m.mu: a reader
+     (thread 1) is not enabled, and no step of thread 0 will ever enable it *)
+  let stuck : config := ([(0%nat, "m.mu", MW)], [[]; [Acq "m.mu" MR; Rd "m.map"; Rel "m.mu"]]) in
+  sched_step stuck 0 = None /\ sched_step stuck 1 = None.
+Proof. vm_compute. repeat split; reflexivity. Qed.
+
 (* the atomic-switch theorem is about a non-trivial situation: a decider that has read one
    element of the old list when the new list is loaded still finishes on the old list *)
 Definition ex_rm : rm := mkRm [[10; 20]] [(1, 0%nat)].
@@ -174,6 +214,9 @@ Print Assumptions C15_lockset_sound_pairwise.
 Print Assumptions C15_checker_sound.
 Print Assumptions C15_checker_rejects_unknown.
 Print Assumptions C15_race_free_of_table.
+Print Assumptions C15_no_lock_leak.
+Print Assumptions C15_lock_leak_exact.
+Print Assumptions C15_region_checker_sound.
 Print Assumptions C15_switch_atomic.
 Print Assumptions C15_switch_old_or_new.
 Print Assumptions C15_switch_frame_load.
